@@ -219,7 +219,11 @@ class Ref:
                 return x / y
             return SFloat(z3.fpDiv(RNE, fterm(x), fterm(y)))
         if is_int(a) and is_int(b):
-            if not (is_sym(a) or is_sym(b)): return {"+": a + b, "-": a - b, "*": a * b}[op]
+            if not (is_sym(a) or is_sym(b)):
+                r = {"+": a + b, "-": a - b, "*": a * b}[op]
+                # ints are modelled as mathematical integers; what a 64-bit overflow denotes is not specified: the path is outside the claim
+                if not (-2**63 <= r < 2**63): raise Cut("integer result outside the 64-bit range")
+                return r
             x, y = iterm(a), iterm(b)
             return mk_int({"+": x + y, "-": x - y, "*": x * y}[op])
         if is_float(a) and is_float(b):
